@@ -212,7 +212,7 @@ func partA6(e *env) {
 		prod(p)
 		s.sync()
 	}
-	agreementWith(w, s.nodes, s.replay, classHonestSwitch)
+	agreement(w, s.nodes, s.replay) // classified by mechanism: p0 produced b9/b12 on the branch of p1's LIB and abandoned it
 	n0, n1 := s.nodes[0], s.nodes[1]
 	run.Count(fmt.Sprintf("A6 p0-lib=%s(%d) p1-lib=%s(%d) conflict=%v", nameOf(n0.maxLib.b), n0.maxLib.no, nameOf(n1.maxLib.b), n1.maxLib.no,
 		n0.maxLib.b != nil && n1.maxLib.b != nil && !n0.maxLib.b.isAncestorOf(n1.maxLib.b) && !n1.maxLib.b.isAncestorOf(n0.maxLib.b)))
